@@ -100,6 +100,31 @@ theorem C05.roundtrip_total (t : Tag) (sDT sIT : Nat) (c : Container)
   obtain ⟨b, hb, _, _⟩ := length_serialize t sDT sIT c hD hI
   exact ⟨b, hb, FeatModel.Ser.deserialize_serialize t sDT sIT c hD hI hwf b hb⟩
 
+/-- The first word of a serialised image is its own length — the size the stream overload
+    `_deserialize(FileMode, std::istream&)` peeks before it reads the record. -/
+theorem C05.stream_record_size (t : Tag) (sDT sIT : Nat) (c : Container)
+    (hD : sDT = 4 ∨ sDT = 8 ∨ sDT = 16) (hI : sIT = 4 ∨ sIT = 8) (hwf : WF t sDT sIT c)
+    (b : Bytes) (hs : serialize t sDT sIT c = some b) : leNat (b.take 8) = b.length ∧ 8 ≤ b.length :=
+  size_word t sDT sIT c hD hI hwf b hs
+
+/-- Reading a record at **any** stream offset (behind junk or earlier records, in front of later ones) returns the
+    container stored *there* and positions the stream exactly behind that record. -/
+theorem C05.read_at_offset (t : Tag) (sDT sIT : Nat) (c : Container)
+    (hD : sDT = 4 ∨ sDT = 8 ∨ sDT = 16) (hI : sIT = 4 ∨ sIT = 8) (hwf : WF t sDT sIT c)
+    (b : Bytes) (hs : serialize t sDT sIT c = some b) (pre post : Bytes) :
+    readFrom t.magic sDT sIT (pre ++ b ++ post) pre.length = some (c, pre.length + b.length) :=
+  readFrom_at t sDT sIT c hD hI hwf b hs pre post
+
+/-- **Several containers in one stream.** For every list of containers (any kinds, equal or unequal record
+    sizes) written one after the other behind an arbitrary prefix `junk`, reading as many times returns them in
+    order, each from its own offset, and ends exactly at the end of the stream. -/
+theorem C05.multi_roundtrip (sDT sIT : Nat) (hD : sDT = 4 ∨ sDT = 8 ∨ sDT = 16) (hI : sIT = 4 ∨ sIT = 8)
+    (objs : List (Tag × Container)) (junk : Bytes) (hwf : ∀ o ∈ objs, WF o.1 sDT sIT o.2) :
+    readAll sDT sIT (junk ++ writeAll sDT sIT objs) (objs.map (·.1.magic)) junk.length
+      = some (objs.map (·.2), (junk ++ writeAll sDT sIT objs).length) := by
+  have := readAll_writeAll sDT sIT hD hI objs junk [] hwf
+  simpa using this
+
 /-- Reading with a different `FileMode` magic is rejected (the `XASSERTM` of `_deserialize`). -/
 theorem C05.wrong_magic_rejected (t : Tag) (sDT sIT : Nat) (c : Container) (magic : Nat)
     (hD : sDT = 4 ∨ sDT = 8 ∨ sDT = 16) (hI : sIT = 4 ∨ sIT = 8) (hwf : WF t sDT sIT c)
